@@ -1,5 +1,6 @@
 import Goflow.Gen.Frame
 import Goflow.Spec.Sflow
+import Goflow.Spec.Netflow
 namespace Goflow.Gen.C10
 open Goflow Goflow.Gen Goflow.Gen.Frame Goflow.Spec.Frame
 
@@ -16,13 +17,23 @@ def genCase (allCuts : Bool) : G (List String) := do
   let viaSflow (k : Nat) : String :=
     let dg : Spec.Sflow.Datagram := ⟨[10, 0, 0, 1], 0, 1, 2, [.flow 1 0 7 [1, 2, 3, 4, 5] [.rawHeader 1 1500 0 (b.take k)]]⟩
     "pkt sf 0a000001 6343 1700000000000000000 " ++ hexOf (Spec.Sflow.encode dg)
+  -- … and as the frame section (element 315, variable length) of an IPFIX record that lists a byte counter in front of it: the
+  -- counter says nothing about how much of the frame was captured
+  let viaIpfix (k : Nat) : List String :=
+    let tpl : List Spec.Netflow.SField := [⟨1, 4, none⟩, ⟨315, 0xffff, none⟩]
+    let mt : Spec.Netflow.Msg := ⟨10, 0, 1, 1700000000, 7, 5, [.template [(400, tpl)] 0]⟩
+    let md : Spec.Netflow.Msg := ⟨10, 0, 2, 1700000000, 8, 5, [.data 400 tpl [[⟨encBE 4 20, false⟩, ⟨b.take k, k ≥ 255⟩]] 0]⟩
+    ["pkt nf 0a000002 2055 1700000000000000000 " ++ hexOf (Spec.Netflow.encode { mt with count := 1 }),
+     "pkt nf 0a000002 2055 1700000000000000001 " ++ hexOf (Spec.Netflow.encode { md with count := 1 })]
+  let ipfixCols := " Type~ TimeReceivedNs~ SequenceNum~ SamplerAddress~ TimeFlowStartNs~ TimeFlowEndNs~ Bytes~ Packets~ ObservationDomainId~"
   let sampleCols := " Type~ TimeReceivedNs~ SequenceNum~ SamplingRate~ SamplerAddress~ TimeFlowStartNs~ TimeFlowEndNs~ Bytes~ Packets~ InIf~ OutIf~"
   pure (cuts.flatMap fun k =>
     ["call parsepacket c0 " ++ hexOf (b.take k), "expect " ++ oracleLine f k (k == b.length),
-     viaSflow k, "expect " ++ oracleLine f k (k == b.length) ++ sampleCols])
+     viaSflow k, "expect " ++ oracleLine f k (k == b.length) ++ sampleCols] ++
+    (if k == b.length ∨ k % 7 == 3 then viaIpfix k ++ ["expect " ++ oracleLine f k (k == b.length) ++ ipfixCols] else []))
 
 def gen (n : Nat) : G (List String) := do
-  let mut out : List String := ["cfg c0 none", "pipe sf sflow c0"]
+  let mut out : List String := ["cfg c0 none", "pipe sf sflow c0", "pipe nf netflow c0"]
   for i in [0:n] do
     out := out ++ (← genCase (i % 3 == 0))
   pure out
